@@ -370,11 +370,15 @@ Proof.
   - (* ODFx *) unfold dctx_fx, dctx_fx_gen, d_spent. cbv zeta. destruct (_ && _ && _); cbn [d_dict dctx_set_stage dctx_set_dict].
     + unfold dd_fx_pre, dd_stale_select. destruct Hsp as [Hu Hn]. rewrite dd_select_noset by exact Hn. split; assumption.
     + destruct (stream_header_spent (get_d w o0) (d_format (get_d w o0) =? (if k =? 1 then 1 else 0)) (if k =? 4 then 1 else 0) Hsp) as (A & B & _); auto.
-  - (* ODDec *) revert E. unfold dctx_dec_stream, dctx_dec_stream_gen.
+  - (* ODDec *) revert E. unfold dctx_dec_stream.
+    rewrite stream_disp_not_once by (unfold dd_fx_pre, dd_stale_select; destruct Hsp as [Hu Hn]; rewrite dd_select_noset by exact Hn;
+                                     cbn [dd_with_last dd_uses]; rewrite Hu; discriminate).
+    unfold dctx_dec_stream_gen.
     destruct (stream_header_spent (get_d w o0) (d_format (get_d w o0) =? 0) (frame_fid f) Hsp) as (A & B & _).
     destruct (dd_stream_header false (get_d w o0) (d_format (get_d w o0) =? 0) (frame_fid f)) as [x u]. cbn [fst] in A, B.
     intro E; injection E as <- _. split; assumption.
-  - (* ODDec1 *) revert E. unfold dctx_dec_oneshot, dctx_dec_oneshot_gen. destruct Hsp as [Hu Hn].
+  - (* ODDec1 *) revert E. destruct Hsp as [Hu Hn]. unfold dctx_dec_oneshot. rewrite oneshot_disp_not_once by (rewrite Hu; discriminate).
+    unfold dctx_dec_oneshot_gen.
     destruct (dd_get_spent _ Hu Hn) as (A & B & C). destruct (dd_get (d_dict (get_d w o0))) as [x0 start]. cbn [fst snd] in A, B, C.
     destruct (negb _); [intro E; injection E as <- _; split; assumption|].
     destruct (oneshot_frames_noset false (d_refMultipleDDicts (get_d w o0) =? 1) fs x0 start B) as (A1 & B1 & _).
@@ -439,11 +443,15 @@ Proof.
   - unfold dctx_fx, dctx_fx_gen, d_holds. cbv zeta. destruct (_ && _ && _); cbn [d_dict dctx_set_stage dctx_set_dict].
     + unfold dd_fx_pre, dd_stale_select. destruct Hh as (Hu & Hk & Hn). rewrite dd_select_noset by exact Hn. repeat split; assumption.
     + destruct (stream_header_holds _ k (d_format (get_d w o0) =? (if k0 =? 1 then 1 else 0)) (if k0 =? 4 then 1 else 0) Hh) as (A & B & C & _); auto.
-  - revert E. unfold dctx_dec_stream, dctx_dec_stream_gen.
+  - revert E. unfold dctx_dec_stream.
+    rewrite stream_disp_not_once by (unfold dd_fx_pre, dd_stale_select; destruct Hh as (Hu & Hk & Hn); rewrite dd_select_noset by exact Hn;
+                                     cbn [dd_with_last dd_uses]; rewrite Hu; discriminate).
+    unfold dctx_dec_stream_gen.
     destruct (stream_header_holds _ k (d_format (get_d w o0) =? 0) (frame_fid f) Hh) as (A & B & C & _).
     destruct (dd_stream_header false (get_d w o0) (d_format (get_d w o0) =? 0) (frame_fid f)) as [x u]. cbn [fst] in A, B, C.
     intro E; injection E as <- _. repeat split; assumption.
-  - revert E. unfold dctx_dec_oneshot, dctx_dec_oneshot_gen. destruct Hh as (Hu & Hk & Hn).
+  - revert E. destruct Hh as (Hu & Hk & Hn). unfold dctx_dec_oneshot. rewrite oneshot_disp_not_once by (rewrite Hu; discriminate).
+    unfold dctx_dec_oneshot_gen.
     rewrite (dd_get_indef _ Hu). cbv beta iota.
     destruct (negb _); [intro E; injection E as <- _; repeat split; assumption|].
     destruct (oneshot_frames_noset false (d_refMultipleDDicts (get_d w o0) =? 1) fs (d_dict (get_d w o0)) (dd_kind (d_dict (get_d w o0))) Hn) as (A1 & B1 & C1).
@@ -555,7 +563,10 @@ Lemma d_multi_decodes_l : forall d, d_multi d ->
         snd (dctx_dec_oneshot d fs) = Ok /\ d_multi (fst (dctx_dec_oneshot d fs))).
 Proof.
   intros d Hd. pose proof Hd as (Hm & Hfm & Hx). split.
-  - intros f Hf. unfold dctx_dec_stream, dctx_dec_stream_gen, d_next_use. rewrite Hfm. cbn [Z.eqb].
+  - intros f Hf. unfold dctx_dec_stream.
+    rewrite stream_disp_not_once by (unfold dd_fx_pre, dd_stale_select; rewrite Hm; cbn [Z.eqb Pos.eqb];
+                                     destruct (select_multi _ _ Hx (frame_fid_ok f)) as ((U & _) & _); rewrite U; discriminate).
+    unfold dctx_dec_stream_gen, d_next_use. rewrite Hfm. cbn [Z.eqb].
     destruct (stream_header_multi d true (frame_fid f) Hd (frame_fid_ok f)) as (A & B & C).
     destruct (dd_stream_header false d true (frame_fid f)) as [x u] eqn:E. cbn [fst snd andb] in *.
     assert (Hmatch : dkind_matches u f = true).
@@ -570,7 +581,8 @@ Proof.
         rewrite E. cbn [snd]. apply (B eq_refl). cbn. discriminate.
       * replace (dd_stream_header false d true 2) with (dd_stream_header false d true (frame_fid 2)) by reflexivity.
         rewrite E. cbn [snd]. apply (B eq_refl). cbn. discriminate.
-  - intros fs Hfs. unfold dctx_dec_oneshot, dctx_dec_oneshot_gen. pose proof Hx as (Hu & l & j & Hs & H0 & H1 & H2 & Hk & Hj).
+  - intros fs Hfs. pose proof Hx as (Hu & l & j & Hs & H0 & H1 & H2 & Hk & Hj).
+    unfold dctx_dec_oneshot. rewrite oneshot_disp_not_once by (rewrite Hu; discriminate). unfold dctx_dec_oneshot_gen.
     rewrite (dd_get_indef _ Hu). cbv beta iota. rewrite Hfm, Hm, Hk. cbn [Z.eqb Pos.eqb negb].
     destruct (oneshot_frames_multi fs (d_dict d) j Hx Hfs) as (A & B).
     destruct (dd_oneshot_frames false true (d_dict d) (DK_ref j) fs) as [x1 ok]. cbn [fst snd] in *. subst ok.
@@ -616,11 +628,15 @@ Proof.
     + apply d_multi_intro; try assumption. unfold dd_fx_pre, dd_stale_select. rewrite Hm. cbn [Z.eqb Pos.eqb].
       exact (proj1 (select_multi _ _ Hx Hk)).
     + destruct (stream_header_multi _ (d_format (get_d w o0) =? (if k =? 1 then 1 else 0)) _ Hh Hk) as (A & _). apply d_multi_intro; assumption.
-  - revert E. unfold dctx_dec_stream, dctx_dec_stream_gen.
+  - revert E. unfold dctx_dec_stream.
+    rewrite stream_disp_not_once by (unfold dd_fx_pre, dd_stale_select; rewrite Hm; cbn [Z.eqb Pos.eqb];
+                                     destruct (select_multi _ _ Hx (frame_fid_ok f)) as ((U & _) & _); rewrite U; discriminate).
+    unfold dctx_dec_stream_gen.
     destruct (stream_header_multi _ (d_format (get_d w o0) =? 0) (frame_fid f) Hh (frame_fid_ok f)) as (A & _).
     destruct (dd_stream_header false (get_d w o0) (d_format (get_d w o0) =? 0) (frame_fid f)) as [x u]. cbn [fst] in A.
     intro E; injection E as <- _. apply d_multi_intro; assumption.
-  - revert E. unfold dctx_dec_oneshot, dctx_dec_oneshot_gen. pose proof Hx as (Hu & l & j & Hs & H0 & H1 & H2 & Hk & Hj).
+  - revert E. pose proof Hx as (Hu & l & j & Hs & H0 & H1 & H2 & Hk & Hj).
+    unfold dctx_dec_oneshot. rewrite oneshot_disp_not_once by (rewrite Hu; discriminate). unfold dctx_dec_oneshot_gen.
     rewrite (dd_get_indef _ Hu). cbv beta iota. rewrite Hfm, Hm, Hk. cbn [Z.eqb Pos.eqb negb].
     assert (G : forall fs x j, x_multi x -> x_multi (fst (dd_oneshot_frames false true x (DK_ref j) fs))).
     { clear. induction fs as [|f fs IH]; intros x j Hx; cbn [dd_oneshot_frames fst]; [exact Hx|].
